@@ -14,7 +14,7 @@ EXPLANATION = (
     'locked); R03.c every struct field that carries the Event parameter is a FIFO channel endpoint, and an event travels from its '
     'receive to update by direct moves; R03.d no unsafe block or unsafe impl exists in the runtime crates (the type-level '
     'arguments lean on this); R03.f every run of the executor inside Core::process is followed by a look at the event channel before the call '
-    'returns, so events emitted during a call are applied by that call in emission order; the linear rule of C01 gives "exactly once"; R03.g a command reports done / ends its stream only when its event and effect queues are empty, so a host never throws away an event a task already emitted. Order between events of different tasks is not decided.')
+    'returns, so events emitted during a call are applied by that call in emission order; the linear rule of C01 gives "exactly once"; R03.g a command reports done / ends its stream only when its event and effect queues are empty, so a host never throws away an event a task already emitted. Order between events of different tasks is not decided. R03.h both executor loops return only after finding both queues empty again once any task has run (shared with C01 R01.e).')
 
 FIFO_CARRIERS = re.compile(
     r'^(crossbeam_channel::channel::(Sender|Receiver)|crux_core::capability::channel::(Sender|Receiver)|'
